@@ -40,7 +40,8 @@ def rule_dispatch_loop_poll(ctx, rep, rid: str) -> None:
     rep.rule(rid, "every loop that drives the opcode dispatcher calls the limit check on every iteration path, before the dispatcher and before any continue", floor=2)
     lc = ctx.facts.limit_check()
     poll = pollers(ctx, lc)
-    disp = {id(f) for f, _ in ctx.facts.dispatchers()}
+    disp = ctx.facts.dispatch_entry_ids()
+    wrappers = {id(w) for w in ctx.facts.dispatch_wrappers()}
     for f, loop in ctx.facts.dispatch_loops():
         cfg = ctx.facts.cfg(f)
         head = cfg.loop_head[id(loop)]
@@ -60,6 +61,8 @@ def rule_dispatch_loop_poll(ctx, rep, rid: str) -> None:
     # the dispatcher may only be driven from loops (a direct call outside any loop would be unpolled recursion)
     for cs in ctx.cg.sites:
         if any(id(t) in disp for t in cs.targets) and cs.kind == "resolved":
+            if id(cs.func) in wrappers:
+                continue  # the wrapper's own callers are checked instead
             if not any(cs.func is f and _inside(cs.call, loop) for f, loop in ctx.facts.dispatch_loops()):
                 rep.bad(rid, f"{cs.func.qual}:call-outside-loop", f"{cs.func.qual} calls the dispatcher outside a polled run loop", f"{cs.func.module.rel}:{cs.line}")
 
